@@ -257,7 +257,7 @@ def evaluate_cases(cs):
         k = kmap.get(i)
         rec = {"stream": c[0], "w": c[1], "tab": c[2], "reorder": c[3], "src": c[4], "o": o}
         if k is not None:
-            rec["k"] = {x: k.get(x) for x in ("impl", "model", "class_eq", "doc_eq", "out_eq", "cnt_eq", "impl_cnt", "model_cnt", "model_wfc", "model_size", "model_swfc", "model_sig", "impl_sig", "kinds")}
+            rec["k"] = {x: k.get(x) for x in ("impl", "model", "class_eq", "doc_eq", "out_eq", "cnt_eq", "impl_cnt", "model_cnt", "model_wfc", "model_size", "model_swfc", "model_sig", "impl_sig", "in_sc", "kinds")}
             if k.get("out_eq") is False:
                 rec["model_out"] = k["model_out"]
                 rec["impl_out"] = k["impl_out"]
